@@ -32,6 +32,8 @@ pub enum Wait {
     Slot(usize),
     /// a yield: enabled, and switching away from it is not a preemption
     Yield,
+    /// enabled iff every scripted injector thread has finished
+    InjectorsDone,
 }
 
 #[derive(Clone, Debug)]
@@ -472,6 +474,7 @@ impl Exec {
                     Wait::WorkerLock => !locked,
                     Wait::Notify(seen) => st.notify_count > seen,
                     Wait::Slot(s) => st.slots[s],
+                    Wait::InjectorsDone => st.threads.iter().filter(|(&t, _)| t > T_U && t < T_WORKER0).all(|(_, t)| t.finished),
                 };
                 if ok {
                     enabled.push(tid);
